@@ -52,13 +52,13 @@ fn simplify(st: &Step) -> Vec<Step> {
                 out.push(Step::Batch { hs: h2 });
             }
         }
-        Step::Pre { g, dst, entry, st, ss, ds, dh, d, it } => {
+        Step::Pre { g, dst, entry, st, ss, ds, dh, d, it, slot } => {
             if !ds.is_empty() {
                 let mut ds2 = ds.clone();
                 let mut dh2 = dh.clone();
                 ds2.pop();
                 dh2.pop();
-                out.push(Step::Pre { g: *g, dst: *dst, entry: *entry, st: st.clone(), ss: ss.clone(), ds: ds2, dh: dh2, d: *d, it: *it });
+                out.push(Step::Pre { g: *g, dst: *dst, entry: *entry, st: st.clone(), ss: ss.clone(), ds: ds2, dh: dh2, d: *d, it: *it, slot: *slot });
             }
             if !st.is_empty() {
                 let mut st2 = st.clone();
@@ -67,7 +67,7 @@ fn simplify(st: &Step) -> Vec<Step> {
                 if ss2.len() > st2.len() {
                     ss2.pop();
                 }
-                out.push(Step::Pre { g: *g, dst: *dst, entry: *entry, st: st2, ss: ss2, ds: ds.clone(), dh: dh.clone(), d: *d, it: *it });
+                out.push(Step::Pre { g: *g, dst: *dst, entry: *entry, st: st2, ss: ss2, ds: ds.clone(), dh: dh.clone(), d: *d, it: *it, slot: *slot });
             }
         }
         Step::Mul { g, dst, a, s, via, d } => {
